@@ -393,6 +393,92 @@ func checkShapeAliasCollisions(r *Run, tp *packages.Package) {
 			})
 		}
 	}
+	// R8 alias-internal-use: a user-spelled alias of an optimiser shape (string fields named …Alias) may name an output
+	// column — the value of an `Alias:` key — and nothing else. As an element of a CTE's column list, an ORDER BY
+	// expression or a part of a compound identifier it becomes a name inside the statement, so renaming the alias
+	// changes more than the output column.
+	internal := map[string]token.Pos{}
+	uses := 0
+	for _, f := range tp.Syntax {
+		for _, d := range f.Decls {
+			fd, ok := d.(*ast.FuncDecl)
+			if !ok || fd.Body == nil {
+				continue
+			}
+			var stack []ast.Node
+			ast.Inspect(fd.Body, func(x ast.Node) bool {
+				if x == nil {
+					stack = stack[:len(stack)-1]
+					return true
+				}
+				stack = append(stack, x)
+				e, ok := x.(ast.Expr)
+				if !ok {
+					return true
+				}
+				// only the outermost expression that converts the field: skip sub-expressions of a conversion already seen
+				if len(stack) >= 2 {
+					if pe, ok := stack[len(stack)-2].(ast.Expr); ok && shapeField(fd, pe, 0) != nil {
+						return true
+					}
+				}
+				fv := shapeField(fd, e, 0)
+				if fv == nil || !strings.HasSuffix(fv.Name(), "Alias") {
+					return true
+				}
+				if _, isIdent := e.(*ast.Ident); isIdent {
+					// a local holding the converted alias: judged where it is used
+				}
+				// where does the value go? walk up: call wrappers (AsOptionalIdentifier) are transparent
+				role := ""
+				for i := len(stack) - 2; i >= 0 && role == ""; i-- {
+					switch p := stack[i].(type) {
+					case *ast.CallExpr:
+						if tv, ok := info.Types[p.Fun]; ok && tv.IsType() {
+							continue
+						}
+						if fn := calleeOf(info, p); fn != nil && strings.Contains(fn.Name(), "Optional") {
+							continue
+						}
+						role = "argument of " + exprString(r.Fset, p.Fun)
+					case *ast.KeyValueExpr:
+						if k, ok := p.Key.(*ast.Ident); ok {
+							role = "key " + k.Name
+						}
+					case *ast.CompositeLit:
+						role = "element of " + strings.TrimPrefix(types.TypeString(info.TypeOf(p), func(*types.Package) string { return "" }), ".")
+					case *ast.AssignStmt, *ast.ValueSpec:
+						role = "local"
+					case *ast.BinaryExpr:
+						role = "comparison"
+					case *ast.ParenExpr:
+						continue
+					default:
+						role = "other"
+					}
+				}
+				if role == "local" || role == "comparison" || role == "" {
+					return true
+				}
+				uses++
+				if role != "key Alias" {
+					key := funcDeclName(fd) + ":" + fv.Name()
+					if _, seen := internal[key]; !seen {
+						internal[key] = e.Pos()
+					}
+				}
+				return true
+			})
+		}
+	}
+	if uses == 0 {
+		r.Undecide("C06-R8: no use of a user-spelled alias of an optimiser shape found in package translate")
+	} else {
+		for _, key := range sortedKeys(internal) {
+			r.Fail("C06-R8-alias-internal-use", key, internal[key], "the user's alias %s names a column inside the statement (a CTE column list, an ORDER BY, a qualified reference), not only an output column: renaming the alias changes the statement beyond its output aliases", key[strings.LastIndex(key, ":")+1:])
+		}
+		r.Pass("C06-R8-alias-internal-use", "translate:scanned", token.NoPos, "%d uses of user-spelled shape aliases examined, %d functions use one as an internal name", uses, len(internal))
+	}
 	r.Note("%s: %d (alias, internal name) pairs examined", rule, n)
 }
 
